@@ -14,6 +14,11 @@ COMBOS = [
     ("ben5-2.diff", "sync.py", r"if tick <= prev_event\.tick:", "if tick < prev_event.tick:", ["C15", "C12"]),
     ("ben7-2.diff", "chart.py", r"return m\.group\(1\)", "return m.group(0)", ["C06"]),
     ("ben6-5.diff", "instrument.py", r"(?m)^    if not m:$", "    if m is None and line:", ["C02", "C07", "C14"]),
+    # helpers that return from inside their loop (expanded to the loop with breaks)
+    ("ben6-4.diff", "instrument.py", r"if not star_power_events\[candidate_index\]\.tick_is_after_event\(tick\):\n\s+return candidate_index",
+     "if star_power_events[candidate_index].tick_is_during_event(tick):\n                return candidate_index", ["C05"]),
+    ("ben7-5.diff", "track.py", r"(?m)^        m\[t\]\.append\(data\)\n        return True", "        return True", ["C14", "C02"]),
+    ("ben7-5.diff", "track.py", r"(?m)^    return False$", "    return True", ["C14"]),
 ]
 
 
